@@ -156,6 +156,10 @@ TypeOK == /\ d \in {0, 1}
           /\ kind = "window" => \A i \in 1..3 : inp.shape[i] % 2 = 0 /\ inp.shape[i] > 0
           /\ kind = "sym" => inp.n \in {2, 4}
 
+\* every operation is a function of its inputs and leaves them as they are (maps, angle / coordinate / shape arrays,
+\* templates, particle lists): the same input object can be used for the next call
+C14_InputsUntouched == [][inp' = inp /\ kind' = kind]_vars
+
 \* a rotation permutes the decided voxels: no two sources share a destination, sources and destinations are interior,
 \* offsets from the centre are carried by R (active), and rotating back with the inverse returns every voxel
 C14_RotatePermutesInterior ==
